@@ -336,7 +336,12 @@ func conv[Int constraints.Integer | *big.Int | ~[]byte](i Int) *big.Int {
 	case reflect.Slice:
 		result.SetBytes(vi.Bytes())
 	case reflect.Ptr:
-		result = vi.Interface().(*big.Int)
+		// work on a copy: the caller's number must not be shifted in place
+		p := vi.Interface().(*big.Int)
+		if p == nil {
+			return nil
+		}
+		result.Set(p)
 	}
 	return result
 }
